@@ -343,6 +343,36 @@ func TestC19(t *testing.T) {
 				R.Violation(key+":max-workers-not-demanded", fmt.Sprintf("-rate=%s -max-workers=%q: attack() %s, manual: %s (stored rate %d/%s)", w, mw, got, want, r.Freq, r.Per))
 			}
 		}
+		// the demand is for -max-workers: no subset of the other concurrency-related flags stands in for it,
+		// in either order on the command line
+		others := [][2]string{{"max-connections", "5"}, {"workers", "3"}, {"connections", "7"}, {"keepalive", "false"}, {"duration", "1s"}, {"timeout", "2s"}}
+		for mask := 1; mask < 1<<len(others); mask++ {
+			for _, rateFirst := range []bool{true, false} {
+				cli := c19NewCLI(empty)
+				var desc []string
+				if rateFirst {
+					cli.set("rate", w)
+				}
+				for i, o := range others {
+					if mask&(1<<i) != 0 {
+						if err := cli.set(o[0], o[1]); err != nil {
+							panic(err)
+						}
+						desc = append(desc, "-"+o[0]+"="+o[1])
+					}
+				}
+				if !rateFirst {
+					cli.set("rate", w)
+				}
+				R.Eval(1)
+				R.Trans(len(desc) + 2)
+				R.Distinct(fmt.Sprint("rate-word-with\x00", w, mask, rateFirst))
+				if got := c19Outcome(cli.attack()); got != c19Demanded {
+					R.Violation(key+":max-workers-not-demanded:with-other-flags", fmt.Sprintf("-rate=%s %s (rate first: %v): attack() %s, manual: %s", w, strings.Join(desc, " "), rateFirst, got, c19Demanded))
+					break
+				}
+			}
+		}
 		R.Sample(map[string]any{"flag": "-rate", "value": w, "means": "unlimited, demands -max-workers"})
 	}
 	R.Part("cases", "rate:words", 2)
